@@ -43,7 +43,7 @@ class ConstexprBufferWriter {
       default;
 
   constexpr Status<void> Prepare(std::size_t size) {
-    if (index_ + size > size_)
+    if (size > size_ - index_)
       return ErrorStatus::WriteLimitReached;
     else
       return {};
